@@ -76,6 +76,20 @@ func (t *Collection) reclaimMarkUpdate(nloc *nodeLoc,
 	return n
 }
 
+// markTreeUnlocked marks every unmarked cached node below nloc as reclaimable.
+// The caller holds rootLock.
+func (t *Collection) markTreeUnlocked(nloc *nodeLoc, reclaimMark *node) {
+	if nloc.isEmpty() {
+		return
+	}
+	n := nloc.Node()
+	if n != nil && n.next == nil {
+		n.next = reclaimMark
+		t.markTreeUnlocked(&n.left, reclaimMark)
+		t.markTreeUnlocked(&n.right, reclaimMark)
+	}
+}
+
 func (t *Collection) reclaimNodesUnlocked(n *node,
 	reclaimLater *[3]*node, reclaimMark *node) int64 {
 	if n == nil {
@@ -219,6 +233,7 @@ func (t *Collection) mkRootNodeLoc(root *nodeLoc) *rootNodeLoc {
 		freeRootNodeLocLock.Unlock()
 	}
 	rnl.refs = 1
+	rnl.superseded = false
 	rnl.root = root
 	rnl.next = nil
 	rnl.chainedCollection = nil
